@@ -13,6 +13,9 @@ func c01Replay(o *Obligation, dir string) (string, bool) {
 			return p, real
 		}
 	}
+	if reC18Tmpl.MatchString(o.Name) {
+		return c18Replay(o, dir)
+	}
 	filter := ""
 	if i := strings.Index(o.Name, "["); i >= 0 {
 		if j := strings.LastIndex(o.Name, "]"); j > i {
